@@ -1042,6 +1042,17 @@ class QuantityMeta(ClassWithDefinitionMeta):
         # the reference unit is created, otherwise that unit would be
         # registered in the map of the base class)
         cls._unit_map: Dict[str, Unit] = {}
+        if define_as is not None:
+            # the class can not be registered if there is already a class
+            # with an equivalent definition, so check this before creating
+            # a reference unit
+            try:
+                reg_cls = QuantityMeta._registry[define_as]
+            except KeyError:
+                pass
+            else:
+                raise ValueError("Item with same or equivalent definition "
+                                 f"already registered: '{reg_cls}'.")
         if ref_unit_symbol:
             cls._ref_unit = cls._make_ref_unit(ref_unit_symbol, ref_unit_name,
                                                ref_unit_def)
